@@ -225,26 +225,45 @@ def run_score_stream(ctx, ncases, maxlines):
 
 # ---------------------------------------------------------------- concurrent writers
 
-def run_writers(ctx, rounds, nproc, big):
+def run_writers(ctx, rounds, nproc, big, barrier=False):
     rng = ctx.rng
     for r in range(rounds):
         sb = Sandbox('c19w')
         try:
-            n = rng.randrange(2, nproc + 1)
-            per = rng.randrange(1, 4)
+            n = rng.randrange(2, nproc + 1) if not barrier else nproc
+            per = rng.randrange(1, 4) if not barrier else 1
             events = []
             for w in range(n):
                 for j in range(per):
-                    size = rng.choice([10, 200, 4000, 9000] + ([65536, 70000] if big else []))
+                    size = rng.choice([10, 200, 4000, 9000] + ([65536, 70000] if big else [])) if not barrier else rng.choice([9000, 12000, 20000, 40000, 66000])
                     events.append({'module_id': 'skill:w%d' % w, 'success': rng.random() < 0.5, 'seq': j, 'writer': w,
                                    'pad': ''.join(rng.choice('abcdefghij \\"\u00e9') for _ in range(size))})
-            def one(ev):
-                return sb.cli(['record'], input=json.dumps(ev).encode('utf-8')).returncode
-            with concurrent.futures.ThreadPoolExecutor(max_workers=n) as ex:
-                rcs = list(ex.map(one, events))
+            if barrier:
+                # every writer is started and handed its event first; `record` reads its input to the end, so closing all
+                # the pipes back to back releases the writers together (the appends race as closely as processes can)
+                procs = []
+                for ev in events:
+                    pr = subprocess.Popen([AGENTPACK_BIN, 'record'], cwd=sb.project, env=sb.env(), stdin=subprocess.PIPE,
+                                          stdout=subprocess.DEVNULL, stderr=subprocess.DEVNULL)
+                    procs.append(pr)
+                def feed(a):
+                    pr, ev = a
+                    try: pr.stdin.write(json.dumps(ev).encode('utf-8')); pr.stdin.flush()
+                    except Exception: pass
+                with concurrent.futures.ThreadPoolExecutor(max_workers=len(procs)) as ex:
+                    list(ex.map(feed, zip(procs, events)))
+                for pr in procs:
+                    try: pr.stdin.close()
+                    except Exception: pass
+                rcs = [pr.wait(timeout=120) for pr in procs]
+            else:
+                def one(ev):
+                    return sb.cli(['record'], input=json.dumps(ev).encode('utf-8')).returncode
+                with concurrent.futures.ThreadPoolExecutor(max_workers=n) as ex:
+                    rcs = list(ex.map(one, events))
             path = os.path.join(sb.aphome, 'state', 'logs', 'events.jsonl')
             data = open(path, 'rb').read() if os.path.exists(path) else b''
-            case = {'stream': 'writers', 'round': r, 'writers': n, 'events': len(events), 'sizes': sorted({len(e['pad']) for e in events})}
+            case = {'stream': 'writers', 'round': r, 'writers': n, 'released_together': barrier, 'events': len(events), 'sizes': sorted({len(e['pad']) for e in events})}
             bad = None
             if not data.endswith(b'\n') and data:
                 bad = 'log does not end with a newline (a line was cut)'
@@ -258,7 +277,7 @@ def run_writers(ctx, rounds, nproc, big):
             canon = lambda e: json.dumps(e, sort_keys=True)
             if not bad and sorted(map(canon, got)) != sorted(map(canon, accepted)):
                 bad = 'log is not a permutation of the accepted events (lost or duplicated event)'
-            ctx.count('writers', key=(n, per, tuple(case['sizes'])), nontrivial=n >= 2, tags=['writers:%d' % n])
+            ctx.count('writers', key=(n, per, barrier, tuple(case['sizes'])), nontrivial=n >= 2, tags=['writers:%d' % n] + (['released_together'] if barrier else []))
             if r == 0:
                 ctx.sample({'stream': 'writers', 'writers': n, 'events': len(events), 'log_lines': len(got)})
             if bad:
@@ -326,5 +345,6 @@ def run(ctx):
     run_score_stream(ctx, 120 if quick else 1500, 14 if quick else 40)
     # ---- writers
     run_writers(ctx, 4 if quick else 30, NCPU, big=not quick)
+    run_writers(ctx, 6 if quick else 60, NCPU, big=True, barrier=True)
     if not quick:
         strace_audit(ctx)
